@@ -201,7 +201,10 @@ class TextLinesCursor(Cursor):
 
         # Ensure start is within bounds for cache lookup
         # The cache has an extra entry at the end, so len - 2 is the last valid index for content
-        pos = min(pos, len(input.line_cache) - 2)
+        last = len(input.line_cache) - 1
+        if input.line_cache[last].length == 0:
+            last -= 1  # the text ends in a line break: report its last line
+        pos = max(0, min(pos, last))
         start, line, length = input.line_cache[pos]
         end = start + length
         col = pos - start
